@@ -2,9 +2,9 @@
 //! real AEADs hide: the nonce of every call (echoed in the tag) and the `SealError` path (they can be told to
 //! fail). "Encryption" is XOR with 0xAA; tag = nonce || big-endian length (4 bytes) || zero padding.
 //! Three nonce sizes: 12 bytes (id 0x7777, like the RFC's AEADs), 24 bytes (0x7778, like XChaCha20-Poly1305) and
-//! 8 bytes (0x7779): RFC 9180 computes the nonce as base_nonce XOR I2OSP(seq, Nn) for whatever Nn the AEAD has.
+//! 8 bytes (0x7779) and 13 bytes (0x777A, like AES-CCM; not a multiple of 4, tag of 20 bytes): RFC 9180 computes the nonce as base_nonce XOR I2OSP(seq, Nn) for whatever Nn the AEAD has.
 
-use aead::generic_array::typenum::{U0, U12, U16, U24, U32, U8};
+use aead::generic_array::typenum::{U0, U12, U13, U16, U20, U24, U32, U8};
 use aead::{AeadCore, AeadInPlace, Key, KeyInit, KeySizeUser, Nonce, Tag};
 use std::cell::Cell;
 
@@ -13,6 +13,19 @@ thread_local! {
     pub static FAIL_SEAL: Cell<u32> = const { Cell::new(0) };
     /// number of encrypt calls seen
     pub static SEALS: Cell<u64> = const { Cell::new(0) };
+    /// number of upcoming decrypt / encrypt calls that must panic (a user-supplied AEAD may do that)
+    pub static PANIC_OPEN: Cell<u32> = const { Cell::new(0) };
+    pub static PANIC_SEAL: Cell<u32> = const { Cell::new(0) };
+}
+
+fn take(c: &'static std::thread::LocalKey<Cell<u32>>) -> bool {
+    c.with(|c| {
+        let v = c.get();
+        if v > 0 {
+            c.set(v - 1);
+        }
+        v > 0
+    })
 }
 
 fn must_fail() -> bool {
@@ -55,6 +68,9 @@ macro_rules! probe_aead {
         }
         impl AeadInPlace for $imp {
             fn encrypt_in_place_detached(&self, nonce: &Nonce<Self>, _aad: &[u8], buf: &mut [u8]) -> Result<Tag<Self>, aead::Error> {
+                if take(&PANIC_SEAL) {
+                    panic!("mock AEAD: deliberate panic in encrypt");
+                }
                 if must_fail() {
                     return Err(aead::Error);
                 }
@@ -64,6 +80,9 @@ macro_rules! probe_aead {
                 Ok(Self::tag_for(nonce, buf.len()))
             }
             fn decrypt_in_place_detached(&self, nonce: &Nonce<Self>, _aad: &[u8], buf: &mut [u8], tag: &Tag<Self>) -> Result<(), aead::Error> {
+                if take(&PANIC_OPEN) {
+                    panic!("mock AEAD: deliberate panic in decrypt");
+                }
                 if Self::tag_for(nonce, buf.len()) != *tag {
                     return Err(aead::Error);
                 }
@@ -85,3 +104,4 @@ macro_rules! probe_aead {
 probe_aead!(ProbeImpl, ProbeAead, U12, U16, 0x7777);
 probe_aead!(ProbeImpl24, ProbeAead24, U24, U32, 0x7778);
 probe_aead!(ProbeImpl8, ProbeAead8, U8, U16, 0x7779);
+probe_aead!(ProbeImpl13, ProbeAead13, U13, U20, 0x777A);
